@@ -6,7 +6,8 @@ For every site the generator records
   * bodyHash          sha256 prefix of the whitespace-normalised loop body / consuming statement
   * hasEarlyExit      the body leaves early or observes positions: break, return, `?`, find, first, last, next(),
                       position, nth, take/skip(_while), enumerate, zip, rev, min_by/max_by(_key)
-  * buildsDiagnostic  the body constructs an error or a panic message: Err(..), <X>Error::, panic!/unreachable!/todo!
+  * buildsDiagnostic  the body constructs an error or a panic message: Err(..), <X>Error::, panic!/unreachable!/todo!,
+                      assert!/assert_eq!/debug_assert!, expect(..)
   * firstWins         the body keeps the first value it meets: is_none()/is_some() guards, get_or_insert, or_insert
 A container is "hash ordered" when it is a HashMap/HashSet (typed field / parameter / let, constructor, clone,
 reference, std::mem::take / replace of one) or a Vec that was filled inside an iteration over a hash ordered
@@ -26,7 +27,8 @@ EARLY_EXIT = re.compile(
     r'\bbreak\b|\breturn\b|\?\s*(?:[;.,)\]}]|$)|\.\s*(?:find|find_map|first|last|next|position|rposition|nth|take|skip|'
     r'take_while|skip_while|enumerate|zip|rev|min_by|max_by|min_by_key|max_by_key|reduce|try_for_each|try_fold)\s*\(',
     re.M)
-DIAGNOSTIC = re.compile(r'\bErr\s*\(|\b[A-Za-z_]*Error\s*::|\bpanic!|\bunreachable!|\btodo!|\bunimplemented!')
+DIAGNOSTIC = re.compile(r'\bErr\s*\(|\b[A-Za-z_]*Error\s*::|\bpanic!|\bunreachable!|\btodo!|\bunimplemented!|'
+                        r'\b(?:debug_)?assert(?:_eq|_ne)?!|\.\s*expect\s*\(')
 FIRST_WINS = re.compile(r'\.\s*is_none\s*\(\s*\)|\.\s*is_some\s*\(\s*\)|\bget_or_insert|\.\s*or_insert(?:_with)?\s*\(|'
                         r'==\s*None\b|!=\s*None\b|\bif\s+let\s+None\b')
 PATH = r'(?:[A-Za-z_][A-Za-z_0-9]*)(?:\s*\.\s*(?:[A-Za-z_][A-Za-z_0-9]*|\d+)|\s*\[[^\]]*\])*'
